@@ -64,6 +64,26 @@ def lib():
         L.dtw_wps_loc.argtypes = [P(DTWWps), idx_t, idx_t, idx_t, idx_t]
         L.dtw_wps_loc_columns.restype = idx_t
         L.dtw_wps_loc_columns.argtypes = [P(DTWWps), idx_t, P(idx_t), P(idx_t), idx_t, idx_t]
+        L.dtw_wps_max.restype = idx_t
+        L.dtw_wps_max.argtypes = [P(DTWWps), P(seq_t), P(idx_t), P(idx_t), idx_t, idx_t]
+        for name in ("dtw_wps_negativize", "dtw_wps_positivize"):
+            f = getattr(L, name)
+            f.restype = None
+            f.argtypes = [P(DTWWps), P(seq_t), idx_t, idx_t, idx_t, idx_t, idx_t, idx_t, C.c_bool]
+        for name in ("dtw_wps_negativize_value", "dtw_wps_positivize_value"):
+            f = getattr(L, name)
+            f.restype = C.c_bool
+            f.argtypes = [P(DTWWps), P(seq_t), idx_t, idx_t, idx_t, idx_t]
+        L.dtw_warping_paths_affinity.restype = seq_t
+        L.dtw_warping_paths_affinity.argtypes = [P(seq_t), P(seq_t), idx_t, P(seq_t), idx_t, C.c_bool, C.c_bool, C.c_bool,
+                                                 C.c_bool, seq_t, seq_t, seq_t, seq_t, P(DTWSettings)]
+        L.dtw_expand_wps_affinity.restype = None
+        L.dtw_expand_wps_affinity.argtypes = [P(seq_t), P(seq_t), idx_t, idx_t, P(DTWSettings)]
+        L.dtw_expand_wps_slice_affinity.restype = None
+        L.dtw_expand_wps_slice_affinity.argtypes = [P(seq_t), P(seq_t), idx_t, idx_t, idx_t, idx_t, idx_t, idx_t,
+                                                    P(DTWSettings)]
+        L.dtw_best_path_affinity.restype = idx_t
+        L.dtw_best_path_affinity.argtypes = [P(seq_t), P(idx_t), P(idx_t), idx_t, idx_t, idx_t, idx_t, P(DTWSettings)]
         L.dtw_distances_length.restype = idx_t
         L.dtw_distances_length.argtypes = [P(DTWBlock), idx_t, idx_t]
         L.dtw_block_is_valid.restype = C.c_bool
